@@ -184,10 +184,11 @@ void run_std(bool with_throw)
 {
     Cell::W = gsim::knob("W", 1, 4);
     if (!gsim::prog_loaded()) {
-        int nw = 1 + gsim::gen_int(2), nr = 1 + gsim::gen_int(3);
+        int deep = gsim::thorough() ? 2 : 0;
+        int nw = 1 + gsim::gen_int(2), nr = 1 + gsim::gen_int(3 + (deep ? 1 : 0));
         gsim::prog_reset(nw + nr);
         for (int t = 0; t < nw; t++) {
-            int k = 1 + gsim::gen_int(3);
+            int k = 1 + gsim::gen_int(3 + deep);
             for (int i = 0; i < k; i++) {
                 if (with_throw && gsim::gen_int(3) == 0)
                     gsim::prog_add(t, {OP_MODIFY_THROW, gsim::gen_int(2), 0, 0});
